@@ -44,13 +44,21 @@ func loadZone(name string) *time.Location {
 }
 
 type gen struct {
-	r        *rand.Rand
-	longLeft int // how many very long strings this generator may still produce (they are expensive on the Coq side)
+	r         *rand.Rand
+	zoneDates []string // days on which the current feed's first agency zone changes its offset (static generator)
+	longLeft  int      // how many very long strings this generator may still produce (they are expensive on the Coq side)
 }
 
 func (g *gen) coin(p float64) bool     { return g.r.Float64() < p }
 func (g *gen) pick(xs []string) string { return xs[g.r.Intn(len(xs))] }
 func (g *gen) str() string {
+	if g.coin(0.04) { // long values: beyond any small inline buffer
+		b := make([]byte, []int{63, 64, 65, 70, 120, 128, 129, 255, 256, 300}[g.r.Intn(10)])
+		for i := range b {
+			b[i] = "abcXYZ019_.\x00"[g.r.Intn(12)]
+		}
+		return string(b)
+	}
 	switch g.r.Intn(8) {
 	case 0:
 		return ""
@@ -131,7 +139,11 @@ func (g *gen) instant() time.Time {
 	default:
 		u = 1600000000 + int64(g.r.Intn(200000000))
 	}
-	return time.Unix(u, 0).In(g.zone())
+	var ns int64
+	if g.coin(0.25) { // instants are nanosecond-precise values; the hash covers the Unix second that contains them (floor, also before 1970)
+		ns = g.pick64([]int64{500000000, 1, 999999999, 250000000, 1000000})
+	}
+	return time.Unix(u, ns).In(g.zone())
 }
 func (g *gen) optInstant() *time.Time {
 	if g.coin(0.3) {
@@ -357,7 +369,19 @@ func (g *gen) mutateTrip(t *gtfs.Trip) (*gtfs.Trip, string) {
 	c.StopTimeUpdates = append([]gtfs.StopTimeUpdate{}, t.StopTimeUpdates...)
 	n := len(c.StopTimeUpdates)
 	for {
-		switch g.r.Intn(18) {
+		switch g.r.Intn(19) {
+		case 18: // half a second later: another value only if that crosses into the next Unix second
+			if n > 0 {
+				i := g.r.Intn(n)
+				u := c.StopTimeUpdates[i]
+				if u.Arrival != nil && u.Arrival.Time != nil {
+					e := *u.Arrival
+					e.Time = ptr(e.Time.Add(500 * time.Millisecond))
+					u.Arrival = &e
+					c.StopTimeUpdates[i] = u
+					return &c, "arrival time +500ms"
+				}
+			}
 		case 16: // compensating change of two numeric parts: the same instant as (date, after-midnight time) and (next day, time)
 			d := time.Duration(g.pick64([]int64{int64(24 * time.Hour), int64(time.Second), int64(time.Hour)}))
 			c.ID.HasStartDate, c.ID.HasStartTime = true, true
